@@ -1,7 +1,7 @@
 (* Props/C13.v -- statements claimed for C13 (geometric measures), about Model/TriaGeom.v over R. *)
 From Coq Require Import List Arith Reals.
 From LaPyV Require Import Base.Scalar Base.Vec3 Base.ListAux Base.Sparse Model.TetMesh Model.TriaAdj Model.TriaOrient
-  Model.Fem Model.TriaGeom Proofs.SparseP Proofs.FemTriaP Proofs.TriaGeomP Proofs.TriaOrientP Proofs.TriaAdjP Proofs.InvarianceP Proofs.VolumeTransP Proofs.VolumeScaleP Proofs.QualityInvarP Proofs.FlowP Proofs.CentroidAffP Proofs.NormalOffsetP Proofs.AreaInvarP.
+  Model.Fem Model.TriaGeom Proofs.SparseP Proofs.FemTriaP Proofs.TriaGeomP Proofs.TriaOrientP Proofs.TriaAdjP Proofs.InvarianceP Proofs.VolumeTransP Proofs.VolumeScaleP Proofs.QualityInvarP Proofs.FlowP Proofs.CentroidAffP Proofs.TetRigidP Proofs.EdgeLenInvarP Proofs.NormalOffsetP Proofs.AreaInvarP.
 Import ListNotations.
 Open Scope R_scope.
 
@@ -170,3 +170,17 @@ Theorem C13_centroid_follows_translation : forall c v ts, tris_in_range (length 
   centroid Rops (map (fun p => vsub Rops p c) v) ts = (vsub Rops (fst (centroid Rops v ts)) c, snd (centroid Rops v ts)).
 Proof. exact centroid_translation. Qed.
 Print Assumptions C13_centroid_follows_translation.
+
+(* avg_edge_length (triangle and tetra meshes): unchanged by every rigid motion (reflections included), multiplied by s under
+   scaling with s >= 0 *)
+Theorem C13_tria_avg_edge_length_rigid_invariant_and_scales : forall Q b s v ts, orthogonal Q -> 0 <= s -> tris_in_range (length v) ts ->
+  tria_avg_edge_length Rops (map (rigid Q b) v) ts = tria_avg_edge_length Rops v ts /\
+  tria_avg_edge_length Rops (map (vscaleR s) v) ts = s * tria_avg_edge_length Rops v ts.
+Proof. exact tria_avg_edge_length_rigid_scale. Qed.
+Print Assumptions C13_tria_avg_edge_length_rigid_invariant_and_scales.
+
+Theorem C13_tet_avg_edge_length_rigid_invariant_and_scales : forall Q b s v ts, orthogonal Q -> 0 <= s -> tets_in_range (length v) ts ->
+  tet_avg_edge_length Rops (map (rigid Q b) v) ts = tet_avg_edge_length Rops v ts /\
+  tet_avg_edge_length Rops (map (vscaleR s) v) ts = s * tet_avg_edge_length Rops v ts.
+Proof. exact tet_avg_edge_length_rigid_scale. Qed.
+Print Assumptions C13_tet_avg_edge_length_rigid_invariant_and_scales.
